@@ -77,7 +77,7 @@ enum SlotState { S_EMPTY = 0, S_VALID, S_FAILED, S_FREED, S_STALE };
 enum { N_USLOTS = 16, N_QSLOTS = 8, TAG_Q = 100, TAG_STR = 200 };
 
 // manager record placed where callbacks can find it
-struct MgrRec { int id; int kind; int index; };
+struct MgrRec { int id; int kind; int index; const UriMemoryManager* self; };   // self: the table object the caller handed over (callbacks must be entered with exactly it)
 
 extern "C" {
 void* urisim_cb_malloc(UriMemoryManager* m, size_t n);
